@@ -145,3 +145,43 @@ func FuzzC06(f *testing.F) {
 		c06{}.Exec(c06FuzzHistory(rand.New(&byteSrc{b: in})))
 	})
 }
+
+// FuzzC03 / FuzzC10 / FuzzC17: the fuzzer's bytes drive the history generators of the stateful properties.
+func FuzzC03(f *testing.F) {
+	for i := 0; i < 8; i++ {
+		f.Add(uint8(i*23), []byte{}, uint16(0))
+		f.Add(uint8(i*31), bytes.Repeat([]byte{0x35, 0xca, 0x01, 0xfe, 0x80}, 60), uint16(0))
+	}
+	f.Fuzz(func(t *testing.T, sel uint8, in []byte, arg uint16) {
+		if len(in) > 4096 {
+			in = in[:4096]
+		}
+		r := rand.New(&byteSrc{b: in})
+		ln := 1 + (int(sel)*7+r.Intn(183))%183
+		c03{}.Exec(c03History(r, ln, r.Intn(8), 14))
+	})
+}
+
+func FuzzC10(f *testing.F) {
+	for i := 0; i < 12; i++ {
+		f.Add(uint8(i), []byte{}, uint16(0))
+		f.Add(uint8(i), bytes.Repeat([]byte{0x35, 0xca, 0x01, 0xfe, 0x80}, 60), uint16(0))
+	}
+	f.Fuzz(func(t *testing.T, sel uint8, in []byte, arg uint16) {
+		if len(in) > 4096 {
+			in = in[:4096]
+		}
+		c10{ring: true}.Exec(c10History(rand.New(&byteSrc{b: in}), int(sel), true))
+	})
+}
+
+func FuzzC17(f *testing.F) {
+	f.Add(uint8(0), []byte{}, uint16(0))
+	f.Add(uint8(0), bytes.Repeat([]byte{0x35, 0xca, 0x01, 0xfe, 0x80}, 60), uint16(0))
+	f.Fuzz(func(t *testing.T, sel uint8, in []byte, arg uint16) {
+		if len(in) > 4096 {
+			in = in[:4096]
+		}
+		c17{}.Exec(c17History(rand.New(&byteSrc{b: in})))
+	})
+}
